@@ -31,6 +31,8 @@ type symDoc struct {
 	fval     []string // free values
 	freeName bool
 	fname    []string
+	fnameSet []bool // free names/values are materialised on first use
+	fvalSet  []bool
 
 	mChild, mNext, mPrev, mParent []int // memo: -2 unknown, -1 none
 }
@@ -66,6 +68,16 @@ func vDoc() *symDoc {
 	if vHasParam("uris") {
 		doc.uris = vSplit(vParam("uris"))
 	}
+	if vHasParam("freenames") {
+		doc.freeName = true
+		doc.fname = make([]string, N)
+		doc.fnameSet = make([]bool, N)
+	}
+	if vHasParam("freevals") {
+		doc.freeVal = true
+		doc.fval = make([]string, N)
+		doc.fvalSet = make([]bool, N)
+	}
 	doc.d = make([]int, N)
 	doc.kind = make([]int, N)
 	doc.name = make([]int, N)
@@ -100,6 +112,7 @@ func vDoc() *symDoc {
 		doc.uri[i] = vInt("ur"+si, 0, len(doc.uris)-1)
 		doc.val[i] = vInt("v"+si, 0, len(doc.pool)-1)
 		doc.nattr[i] = vInt("na"+si, 0, A)
+
 		for a := 0; a < A; a++ {
 			sa := si + "_" + strconv.Itoa(a)
 			doc.aname[i][a] = vInt("an"+sa, 0, len(doc.names)-1)
@@ -123,6 +136,26 @@ func vDoc() *symDoc {
 	}
 	vAssume(ok)
 	return doc
+}
+
+// freeNameOf: element name as a free byte string: 1-3 bytes, first a letter.
+func (d *symDoc) freeNameOf(i int) string {
+	if !d.fnameSet[i] {
+		d.fnameSet[i] = true
+		nm := vStr("fn"+strconv.Itoa(i), 3, vParam("freenames"))
+		vAssume(len(nm) >= 1)
+		vAssume(vOr(nm[0] == 'a', nm[0] == 'b'))
+		d.fname[i] = nm
+	}
+	return d.fname[i]
+}
+
+func (d *symDoc) freeValOf(i int) string {
+	if !d.fvalSet[i] {
+		d.fvalSet[i] = true
+		d.fval[i] = vStr("fv"+strconv.Itoa(i), vParamInt("freevallen"), vParam("freevals"))
+	}
+	return d.fval[i]
 }
 
 func (d *symDoc) exists(i int) bool { return i == 0 || (i < d.N && d.d[i] != 0) }
@@ -219,6 +252,9 @@ func (n *symNav) LocalName() string {
 	if n.cur == 0 || n.doc.kind[n.cur] != 1 {
 		return ""
 	}
+	if n.doc.freeName {
+		return n.doc.freeNameOf(n.cur)
+	}
 	return n.doc.names[n.doc.name[n.cur]]
 }
 
@@ -241,6 +277,9 @@ func (n *symNav) Value() string {
 	}
 	if n.cur == 0 {
 		return ""
+	}
+	if n.doc.freeVal {
+		return n.doc.freeValOf(n.cur)
 	}
 	return n.doc.pool[n.doc.val[n.cur]]
 }
